@@ -2,7 +2,7 @@
 From V Require Import Base.Bytes Model.Entry.
 Definition sites : list site := [
   ((sb "layout"), false, [UCopyReturned]);
-  ((sb "Render"), true, [UDelegate (sb "layout"); UDelegate (sb "layout"); UOther (sb "t.vue.Render(w, t.filename, t.stack.EnvMap())"); UDelegate (sb "renderWithoutLayout"); UOther (sb "mention of w outside a call argument")]);
+  ((sb "Render"), true, [UDelegate (sb "layout"); UDelegate (sb "layout"); UDelegate (sb "renderWithoutLayout")]);
   ((sb "renderWithoutLayout"), false, [UCopyReturned]);
   ((sb "RenderFile"), true, [UDelegate (sb "Render")]);
   ((sb "RenderString"), true, [UDelegate (sb "RenderByte")]);
